@@ -176,15 +176,18 @@ def wNull : List Char := "null".toList
 def wTrue : List Char := "true".toList
 def wFalse : List Char := "false".toList
 
+/-- a keyword: `NOT` after a last token `IS`, `IN` after a last token `NOT` rewrite that token, else `add` -/
+def addKeyword (st : St) (k : Keyword) : St :=
+  match k, st.lastTok with
+  | .not, some (.kw .is) => st.setLast (.kw .isNot)
+  | .in, some (.kw .not) => st.setLast (.kw .notIn)
+  | _, _ => st.add (.kw k)
+
 /-- after the identifier loop: keyword lookup with the `IS NOT` / `NOT IN` fusion, `null`/`true`/`false`, identifier -/
 def flushIdent (o : Oracles) (st : St) (w : List Char) : St :=
   let lw := lower o w
   match keywordOf lw with
-  | some k =>
-    match k, st.lastTok with
-    | .not, some (.kw .is) => st.setLast (.kw .isNot)
-    | .in, some (.kw .not) => st.setLast (.kw .notIn)
-    | _, _ => st.add (.kw k)
+  | some k => addKeyword st k
   | none =>
     if lw = wNull then st.add .null
     else if lw = wTrue then st.add .tru
@@ -292,11 +295,12 @@ def stepR (o : Oracles) (r : R) (c : Char) : R := r.bind (fun st => step o st c)
 /-- the whole loop -/
 def run (o : Oracles) (st : St) (text : List Char) : R := text.foldl (stepR o) (.run st)
 
-/-- after the loop: the pending word / number, removal of a trailing `--`, the `End` token -/
-def finish (o : Oracles) (st : St) : R :=
-  (flush o st).bind (fun st =>
-    let st := if st.lastTok = some dashDash then { st with toks := st.toks.tail } else st
-    .run (st.add .eof))
+/-- after the loop: removal of a trailing `--`, the `End` token -/
+def St.close (st : St) : St :=
+  (if st.lastTok = some dashDash then { st with toks := st.toks.tail } else st).add .eof
+
+/-- after the loop: the pending word / number is converted first -/
+def finish (o : Oracles) (st : St) : R := (flush o st).bind (fun st => .run st.close)
 
 inductive Result where
   | ok (ts : List PTok)
